@@ -434,6 +434,50 @@ pub fn run(ctx: &mut Ctx) -> Result<(), Violation> {
 }
 
 pub fn replay(v: &Violation) -> Result<(), String> {
+    if v.kind == "decoder-bytes" {
+        let b = hex::decode(v.case["bytes"].as_str().unwrap_or("")).map_err(|e| e.to_string())?;
+        return decode_fuzz(&b);
+    }
     let c: Case = from_case(&v.case)?;
     check(&c).map(|_| ())
+}
+
+// ---------------------------------------------------------------- decoder oracle shared with the libFuzzer target
+fn both<T: Serialize + DeserializeOwned>(what: &str, data: &[u8]) -> Result<(), String> {
+    if let Ok(v) = np(what, || bincode::deserialize::<T>(data))? {
+        let e = bincode::serialize(&v).map_err(|e| format!("{what}: re-encode: {e}"))?;
+        let v2: T = bincode::deserialize(&e).map_err(|e| format!("{what}: its own bincode encoding does not decode: {e}"))?;
+        if bincode::serialize(&v2).map_err(|e| e.to_string())? != e {
+            return Err(format!("{what}: bincode round trip is not stable"));
+        }
+    }
+    if let Ok(v) = np(what, || serde_json::from_slice::<T>(data))? {
+        let e = serde_json::to_vec(&v).map_err(|e| format!("{what}: re-encode: {e}"))?;
+        let v2: T = serde_json::from_slice(&e).map_err(|e| format!("{what}: its own JSON does not decode: {e}"))?;
+        if serde_json::to_vec(&v2).map_err(|e| e.to_string())? != e {
+            return Err(format!("{what}: JSON round trip is not stable"));
+        }
+    }
+    Ok(())
+}
+
+/// arbitrary bytes -> (type selector, encoding); no decoder may panic and whatever decodes must re-encode stably
+pub fn decode_fuzz(data: &[u8]) -> Result<(), String> {
+    if data.is_empty() {
+        return Ok(());
+    }
+    let d = &data[1..];
+    match data[0] % 11 {
+        0 => both::<SB<32>>("StackByteArray<32>", d),
+        1 => both::<SB<16>>("StackByteArray<16>", d),
+        2 => both::<DryocBox<SB<32>, SB<16>, Vec<u8>>>("DryocBox", d),
+        3 => both::<DryocSecretBox<SB<16>, Vec<u8>>>("DryocSecretBox", d),
+        4 => both::<SignedMessage<SB<64>, Vec<u8>>>("SignedMessage", d),
+        5 => both::<KeyPair<SB<32>, SB<32>>>("KeyPair", d),
+        6 => both::<SigningKeyPair<SB<32>, SB<64>>>("SigningKeyPair", d),
+        7 => both::<Session<SB<32>>>("kx::Session", d),
+        8 => both::<Kdf<SB<32>, SB<8>>>("Kdf", d),
+        9 => both::<PwHash<Vec<u8>, Vec<u8>>>("PwHash", d),
+        _ => both::<SB<64>>("StackByteArray<64>", d),
+    }
 }
